@@ -36,6 +36,8 @@ struct StackDesc {
 #[derive(Clone, Debug, Serialize, Deserialize, PartialEq)]
 enum Op {
     Event { t: u8, cs: u8 },
+    /// an event with an explicit parent (`event!(parent: &span, ..)`), whatever is entered
+    EventIn { t: u8, cs: u8, slot: u8 },
     Open { t: u8, cs: u8, slot: u8 },
     Enter { t: u8, slot: u8 },
     Exit { t: u8 },
@@ -61,6 +63,9 @@ macro_rules! sites {
     ($($idx:literal, $lvl:ident, $tgt:literal;)*) => {
         fn emit_event(i: u8) {
             match i { $($idx => tracing::event!(target: $tgt, Level::$lvl, cs = $idx as u64),)* _ => {} }
+        }
+        fn emit_event_in(i: u8, p: &Span) {
+            match i { $($idx => tracing::event!(target: $tgt, parent: p, Level::$lvl, cs = $idx as u64),)* _ => {} }
         }
         fn make_span(i: u8) -> Span {
             match i { $($idx => tracing::span!(target: $tgt, Level::$lvl, "sp", cs = $idx as u64, x = tracing::field::Empty),)* _ => Span::none() }
@@ -192,7 +197,7 @@ fn run_case(case: &Case) -> Outcome {
 
     for (i, op) in case.ops.iter().enumerate() {
         let t = match op {
-            Op::Event { t, .. } | Op::Open { t, .. } | Op::Enter { t, .. } | Op::Exit { t } | Op::Close { t, .. } | Op::Record { t, .. } | Op::Probe { t, .. } | Op::Abort { t, .. } => *t as usize % NT,
+            Op::Event { t, .. } | Op::EventIn { t, .. } | Op::Open { t, .. } | Op::Enter { t, .. } | Op::Exit { t } | Op::Close { t, .. } | Op::Record { t, .. } | Op::Probe { t, .. } | Op::Abort { t, .. } => *t as usize % NT,
         };
         let k = t % nst;
         let b = &built[k];
@@ -248,6 +253,32 @@ fn run_case(case: &Case) -> Outcome {
                 }
                 last_pattern[t] = Some(pattern);
                 run = st.run(t, move |_| emit_event(cs));
+            }
+            Op::EventIn { cs, slot, .. } => {
+                let (cs, s) = (cs % 9, slot as usize % NSLOT);
+                let Some(x) = th[t].slots[s] else {
+                    classes.push("op_skipped".into());
+                    continue;
+                };
+                let ev = evaluate(&spans, &th, cs);
+                let vetoed = b.flat.leaf_paths.iter().enumerate().any(|(l, path)| b.veto.get(l).copied().flatten() == Some(cs) && ev.globals_ok && path.iter().all(|f| ev.acc[*f]));
+                for (l, path) in b.flat.leaf_paths.iter().enumerate() {
+                    let got = !vetoed && ev.globals_ok && path.iter().all(|f| ev.acc[*f]);
+                    if got {
+                        let cur = view_current(&spans, &th, t, path);
+                        // the event's span is its explicit parent if this leaf sees that span,
+                        // otherwise the event has no span for this leaf (a disabled handle makes
+                        // the event a root)
+                        let scope = if sees(&spans[x], path) { view_scope(&spans, &parents, x, path) } else { vec![] };
+                        want[l].push((LKind::Event, 0, cs as i64, cur, Some(scope)));
+                    }
+                }
+                classes.push("event_with_explicit_parent".into());
+                last_pattern[t] = None;
+                run = st.run(t, move |ts| {
+                    let p = ts.slots[s].clone().unwrap_or_else(Span::none);
+                    emit_event_in(cs, &p)
+                });
             }
             Op::Open { cs, slot, .. } => {
                 let (cs, s) = (cs % 9, slot as usize % NSLOT);
@@ -521,6 +552,7 @@ impl Property for C07 {
         let cs = || 0u8..9;
         let op = prop_oneof![
             8 => (t(), cs()).prop_map(|(t, cs)| Op::Event { t, cs }),
+            3 => (t(), cs(), s()).prop_map(|(t, cs, slot)| Op::EventIn { t, cs, slot }),
             5 => (t(), cs(), s()).prop_map(|(t, cs, slot)| Op::Open { t, cs, slot }),
             4 => (t(), s()).prop_map(|(t, slot)| Op::Enter { t, slot }),
             3 => t().prop_map(|t| Op::Exit { t }),
